@@ -1,5 +1,5 @@
 import JjModel.Model.Conflicts
-import JjModel.Props.C05
+import JjModel.Model.ConflictsSpec
 import JjModel.Drv.Util
 /-!
   Driver handler for C05.
@@ -84,7 +84,7 @@ def handle : List String → Option String
     let sides ← sides.toNat?
     let files ← parseTerms files
     let hunks ← parseHunks hunks
-    some (showBool (decide (JjModel.C05.RoundTripHyps files sides hunks)))
+    some (showBool (decide (RoundTripHyps files sides hunks)))
   | ["diffok", entry] => do
     let (l, r, g) ← parseEntry entry
     some (showBool (decide (DiffOK g l r)))
